@@ -2438,3 +2438,17 @@ def _(it, a, info):
                 return acc
             acc = it.call_callable(a[2], [acc, x.fields[0]])
     raise Unsupported('Iterator::' + m)
+
+
+@model('String::from_utf8', 'str::from_utf8')
+def _(it, a, info):
+    v = a[0]
+    s = as_slice(it, v)
+    # ASCII-only model: valid UTF-8 iff every byte < 0x80 (multi-byte sequences are outside the modelled inputs and are
+    # treated as invalid, which is conservative for parsers that then reject the input)
+    ok = z3.simplify(all_in(s, lambda c: z3.ULT(c, 128)))
+    if it.ctx.branch(ok):
+        if isinstance(v, Buf):
+            return Ok(Buf(v.arr, v.len, v.maxlen, 'String'))
+        return Ok(s)
+    return Err(Struct('FromUtf8Error', [v]))
